@@ -66,6 +66,7 @@ func drawC14Late(t *rapid.T) C14LateCase {
 		Accruals:   rapid.IntRange(0, 3).Draw(t, "accruals") == 0,
 		Assertions: true, Closes: true, Perf: true, Prices: 1, MaxDec: 4,
 	}
+	gen.MaybeLarge(t, &cfg, 4)
 	j := gen.GenJournal(t, cfg)
 	_, hi, _ := gen.DatesOf(j)
 	v := rapid.SampledFrom(j.Commodities).Draw(t, "valuation")
